@@ -53,7 +53,9 @@ impl Sink {
         }
         if let Some(w) = self.scripts.as_mut() {
             writeln!(w, "{}", json!({"run": run, "seed": seed, "steps": steps})).unwrap();
+            w.flush().unwrap();
         }
+        self.out.flush().unwrap();
         self.emitted += 1;
     }
     pub fn lines(&mut self, run: usize, lines: &[String], script: Value) {
@@ -62,7 +64,9 @@ impl Sink {
         }
         if let Some(w) = self.scripts.as_mut() {
             writeln!(w, "{}", json!({"run": run, "seed": 0, "steps": script})).unwrap();
+            w.flush().unwrap();
         }
+        self.out.flush().unwrap();
         self.emitted += 1;
     }
     pub fn finish(mut self) {
@@ -990,6 +994,22 @@ fn mutations(b: &[u8], rng: &mut StdRng, thorough: bool) -> Vec<(String, Vec<u8>
     // truncation at every offset (the rest never comes: EOF follows)
     for i in 1..b.len() {
         out.push((format!("trunc{}", i), b[..i].to_vec()));
+    }
+    // truncation with the remaining length corrected (the decoder sees a complete packet that ends early), and
+    // additionally with a plausible property-length byte corrected so that the property section ends at the cut
+    if b.len() >= 3 && b[1] < 0x80 {
+        for i in 2..b.len() {
+            let mut m = b[..i].to_vec();
+            m[1] = (i - 2) as u8;
+            out.push((format!("truncfix{}", i), m.clone()));
+            for pos in 2..i.min(14) {
+                if pos + 1 < i && (b[pos] as usize) + pos + 1 <= b.len() && b[pos] > 0 {
+                    let mut m2 = m.clone();
+                    m2[pos] = (i - pos - 1) as u8;
+                    out.push((format!("truncfix{}@pl{}", i, pos), m2));
+                }
+            }
+        }
     }
     // remaining length perturbations (single-byte remaining length assumed where it applies)
     if b.len() >= 2 && b[1] < 0x7e {
